@@ -25,6 +25,9 @@ var c19Envs = []string{"", "ev", "e1, e2", "FAIL"}
 func runCustom(c *Ctx) {
 	idx := 0
 	alen := 3
+	if c.Thorough() {
+		alen = 4
+	}
 	argvs := ref.Argvs(c19Toks, alen)
 	for ki := range cvKinds {
 		for _, spec := range c19Specs {
